@@ -12,6 +12,7 @@ import Reamber.Lemmas.BMSWrite
 import Reamber.Lemmas.PermInvBMS
 import Reamber.Lemmas.SnapMono
 import Reamber.Lemmas.BMSHeader
+import Reamber.Props.C04
 
 namespace Reamber.BMS
 
@@ -1140,5 +1141,97 @@ theorem bms_write_read (cs : List BcSnap) (hwf : wfChanges cs = true) (hs : stri
         rw [hcs] at hq
         rw [hdrop]
         exact hq
+
+/-! ### the hypotheses are satisfiable; the generated layouts -/
+
+/-- on the five generated layouts the time-signature channel is neither a lane nor the tempo channel -/
+theorem layouts_timeSig : ∀ n ∈ Generated.BMS.layoutNames, ∀ l, layoutOf n = some l →
+    l.exbpmCh ≠ l.timeSig ∧ ∀ lane ∈ l.lanes, lane.1 ≠ l.timeSig := by
+  decide +kernel
+
+def wrExCs : List BcSnap := [⟨120,4,⟨0,0,some 4⟩⟩, ⟨60,4,⟨1,0,some 4⟩⟩]
+def wrExLay : Layout := (layoutOf "PMS_5B").getD ⟨[], [], [], []⟩
+def wrExChart : WChart :=
+  { title := "t".toList, artist := "a".toList, version := "1".toList, lnEnd := "ZZ".toList, samples := [], misc := [],
+    bpms := [⟨60, 4, 2000⟩, ⟨120, 4, 0⟩], hits := [⟨0, [], 0⟩], holds := [⟨1, [], 0, 2000⟩] }
+
+theorem wrExLay_eq : layoutOf "PMS_5B" = some wrExLay := by decide +kernel
+theorem wrExCs_ok : wfChanges wrExCs = true ∧ strictSnaps wrExCs = true ∧ firstAtZero wrExCs = true ∧ metronomeOk wrExCs = true := by decide +kernel
+theorem wrExCs_tm : tmOf 0 wrExCs = [⟨120, 4, 0⟩, ⟨60, 4, 2000⟩] := by decide +kernel
+theorem wrExCs_gc : gridCompatible (grid defaultMaxDiv) wrExCs = true := by
+  have hg : GridOK defaultGrid := gridOK_grid (by decide)
+  have h0 : frac (snapDist (⟨0,0,some 4⟩ : Snap) ⟨1,0,some 4⟩ 4) = 0 := by decide +kernel
+  have hz : (0 : Rat) ∈ grid defaultMaxDiv := by
+    have := hg.zero_mem
+    simpa [defaultGrid] using this
+  simp only [wrExCs, gridCompatible, h0, Bool.and_true, List.contains_iff_mem]
+  exact hz
+theorem wrExPos : posFn wrExCs 0 = ⟨0,0,some 4⟩ ∧ posFn wrExCs 2000 = ⟨1,0,some 4⟩ := by
+  have h := posFn_own wrExCs wrExCs_ok.1 wrExCs_ok.2.1
+  rw [wrExCs_tm] at h
+  exact ⟨h (⟨120,4,⟨0,0,some 4⟩⟩, ⟨120,4,0⟩) (by simp [wrExCs]), h (⟨60,4,⟨1,0,some 4⟩⟩, ⟨60,4,2000⟩) (by simp [wrExCs])⟩
+
+def wrExRows : List WRow :=
+  [⟨⟨0,0,some 4⟩, "13".toList, "01".toList⟩, ⟨⟨0,0,some 4⟩, "14".toList, "01".toList⟩, ⟨⟨1,0,some 4⟩, "14".toList, "ZZ".toList⟩,
+   ⟨⟨1,0,some 4⟩, "08".toList, "01".toList⟩, ⟨⟨0,0,some 4⟩, "08".toList, "02".toList⟩]
+
+theorem wrExRows_eq : bmsNoteRows wrExCs wrExLay "01".toList wrExChart ++ bmsTempoRows wrExCs wrExLay wrExChart = wrExRows := by
+  simp only [bmsNoteRows, bmsTempoRows, wrExChart, List.map, zipIdxFrom, wrExPos.1, wrExPos.2]
+  decide +kernel
+
+theorem wrExRowsOK : RowsOK wrExRows where
+  meas := by decide +kernel
+  norm := by decide +kernel
+  chan := by
+    intro r hr
+    simp only [wrExRows, List.mem_cons, List.not_mem_nil, or_false] at hr
+    rcases hr with rfl | rfl | rfl | rfl | rfl <;> exact ⟨_, _, rfl, by decide, by decide⟩
+  value := by decide +kernel
+  nocoll := by decide +kernel
+
+/-- **The hypotheses of `bms_write_read` are satisfiable**: a chart with two tempo rows in reverse order, a hit and a
+hold, on the `PMS_5B` layout — the theorem applies and gives a written file with its by-the-book meaning. -/
+theorem bms_write_read_nonvacuous :
+    ∃ lines d, write defaultGrid wrExLay "01".toList wrExChart = .ok lines ∧ denote wrExLay lines = some d ∧
+      d.tempo = ⟨60, 4, ⟨0, 0, some 4⟩⟩ :: wrExCs := by
+  have hlay := layouts_ok "PMS_5B" (by decide) wrExLay wrExLay_eq
+  have hts := layouts_timeSig "PMS_5B" (by decide) wrExLay wrExLay_eq
+  have hp : wrExChart.bpms.Perm (tmOf 0 wrExCs) := by rw [wrExCs_tm]; exact List.Perm.swap _ _ _
+  have hok : BmsOk wrExCs wrExLay wrExChart := by
+    refine ⟨by decide +kernel, by decide +kernel, by decide +kernel, by decide +kernel⟩
+  have hR : RowsOK (bmsNoteRows wrExCs wrExLay "01".toList wrExChart ++ bmsTempoRows wrExCs wrExLay wrExChart) := by
+    rw [wrExRows_eq]; exact wrExRowsOK
+  have hv : ∀ r ∈ bmsNoteRows wrExCs wrExLay "01".toList wrExChart, r.value ≠ ['0', '0'] := by
+    intro r hr
+    have : r ∈ wrExRows := by rw [← wrExRows_eq]; exact List.mem_append_left _ hr
+    have hall : ∀ r ∈ wrExRows, r.value ≠ ['0', '0'] := by decide +kernel
+    exact hall r this
+  have hH : HeaderOK wrExChart :=
+    ⟨by intro kv hkv; simp [wrExChart] at hkv, by intro kv hkv; simp [wrExChart] at hkv, by decide +kernel, by decide +kernel, by decide +kernel⟩
+  have hdec : ∀ b ∈ wrExChart.bpms, roundDec 3 b.bpm = b.bpm := by decide +kernel
+  obtain ⟨hl, hhdr⟩ : ∃ hl, writeHeader wrExChart = .ok hl := by
+    have h : (writeHeader wrExChart).toOption.isSome = true := by decide +kernel
+    cases hw : writeHeader wrExChart with
+    | ok hl => exact ⟨hl, rfl⟩
+    | error e => rw [hw] at h; cases h
+  have hitems : ∀ lane ∈ wrExLay.lanes, (laneItems wrExChart "01".toList lane.2).Perm (laneItems wrExChart "01".toList lane.2) ∧
+      (∀ a ∈ laneItems wrExChart "01".toList lane.2, a.idOk wrExChart.lnEnd) := by
+    intro lane _
+    refine ⟨List.Perm.refl _, ?_⟩
+    intro a ha
+    simp only [laneItems, List.mem_append, List.mem_map] at ha
+    rcases ha with ⟨h, _, rfl⟩ | ⟨h, _, rfl⟩
+    · simp only [TAtom.idOk, wrExChart, sampleId, List.reverse_nil, List.find?_nil, Option.map_none, Option.getD_none]; decide
+    · simp only [TAtom.idOk, wrExChart, sampleId, List.reverse_nil, List.find?_nil, Option.map_none, Option.getD_none]; decide
+  have hasc : ∀ lane ∈ wrExLay.lanes,
+      ((laneItems wrExChart "01".toList lane.2).flatMap TAtom.times).Pairwise (fun a b => a ≤ b) := by decide +kernel
+  obtain ⟨lines, d, b0, hw, hd, hhead, htempo, _⟩ :=
+    bms_write_read wrExCs wrExCs_ok.1 wrExCs_ok.2.1 wrExCs_ok.2.2.1 wrExCs_gc wrExCs_ok.2.2.2 wrExLay hlay hts "01".toList wrExChart hp hok
+      hR hv hH hdec hl hhdr (fun lane => laneItems wrExChart "01".toList lane.2) hitems hasc
+  refine ⟨lines, d, hw, hd, ?_⟩
+  have : b0 = ⟨60, 4, 2000⟩ := by
+    simp only [wrExChart, List.head?_cons, Option.some.injEq] at hhead
+    exact hhead.symm
+  rw [htempo, this]
 
 end Reamber.BMS
